@@ -148,8 +148,10 @@ struct LzhDrain : Family {
 		if (o != OkOut) ctx.fail("C04.equals-reference", "constructing the decompressor over " + std::to_string(in.bytes.size()) + " bytes failed: " + what);
 		size_t calls = 0;
 		size_t cloneAt = (mix64(plan.seed, 0xC0) % 3 == 0) ? 1 + static_cast<size_t>(mix64(plan.seed, 0xC1) % 12) : SIZE_MAX;
+		size_t lastRequested = 0; // bytes asked for by the most recent call (0 for the internal-buffer interface)
 		auto step = [&](const Line& op) {
 			++calls;
+			lastRequested = op.verb == "getbuf" ? 0 : static_cast<size_t>(std::min<uint64_t>(op.u("n", 1), 1u << 20));
 			if (calls == cloneAt) {
 				// value semantics: the decoder in use is replaced by a copy of itself (the original is destroyed) or by one moved out
 				// of such a copy; the copy must continue the same byte sequence
@@ -230,13 +232,27 @@ struct LzhDrain : Family {
 			if (!D.capacityError) ctx.fail("C04.equals-reference", "decompressor raised an error (" + what + ") after " + std::to_string(got.size()) + " bytes; the reference decoder decodes the whole input to " + std::to_string(D.out.size()) + " bytes");
 			ctx.count("probe.capacity_error_raised");
 			// "ends in an error at that point instead of continuing": whatever is asked of the decoder (or of a copy of it) after the
-			// capacity error, the bytes delivered in total stay a prefix of what the reference decodes up to that point
+			// capacity error, it does not decode on. A call that failed may have handed over part of what it was asked for before it
+			// threw (those bytes are lost to the caller), so what arrives afterwards must be the reference output from the position
+			// reached so far plus a gap of at most the sizes asked for by the failed GetData calls - never anything else, never beyond
+			// what the reference decodes up to the capacity point
 			if (D.capacityError) {
+				size_t cursor = got.size();
+				size_t slack = lastRequested;
 				for (size_t q = 0; q < 6; ++q) {
 					threw = false; exhausted = false;
 					if (q == 3) callLib(plan, [&] { if constexpr (std::is_copy_constructible<Archive::HuffLZ>::value) { auto c = std::make_unique<Archive::HuffLZ>(*dec); dec = std::move(c); } }, &what);
+					size_t before = got.size();
 					step(pattern[q % pattern.size()]);
-					checkPrefix("after the capacity error was raised");
+					if (threw) { slack += lastRequested; continue; }
+					std::vector<uint8_t> chunk(got.begin() + static_cast<long>(before), got.end());
+					got.resize(before);
+					if (chunk.empty()) continue;
+					bool aligned = false;
+					for (size_t g = 0; g <= slack && cursor + g + chunk.size() <= D.out.size(); ++g) {
+						if (memcmp(D.out.data() + cursor + g, chunk.data(), chunk.size()) == 0) { cursor += g + chunk.size(); slack = 0; aligned = true; break; }
+					}
+					if (!aligned) ctx.fail("C04.capacity-error", "after the capacity error was raised the decompressor delivered " + std::to_string(chunk.size()) + " more bytes that are not the reference output at position " + std::to_string(cursor) + " (+ at most " + std::to_string(slack) + " bytes lost in failed calls) - it decoded on, or beyond the " + std::to_string(D.out.size()) + " bytes the reference produces up to the capacity point");
 				}
 				threw = true;
 				ctx.count("probe.requests_after_capacity_error");
